@@ -14,6 +14,30 @@ def check_hx(pid, tier, seed):
             binary = build("hx", leg["profile"], leg["features"], toolchain="nightly", rustflags_extra="-Zsanitizer=address", target_sub="asan", extra_args=("--target=x86_64-unknown-linux-gnu",))
         else:
             binary = build("hx", leg["profile"], leg["features"])
+        if san == "miri":
+            sc = hxrun.FAMILIES[leg["fam"]]("quick", **{k: v for k, v in leg["kw"].items() if k not in ("san", "miri_depth")})[0]
+            sc["props"] = leg["props"]
+            jobs, results, wall = hxrun.run_miri_leg(binary, sc, leg["kw"].get("miri_depth", 2), leg["features"])
+            bad = 0
+            for (jsc, hist), (verdict, detail) in zip(jobs, results):
+                if verdict == "ok":
+                    continue
+                if verdict == "error":
+                    raise MachineryError("Miri replay failed to run: %s\nhistory %s" % (detail, json.dumps(hist)))
+                bad += 1
+                if verdict == "ub":
+                    agg["violations"].append({"prop": "CRASH", "oracle": "miri:undefined-behaviour", "msg": "Miri reports undefined behaviour while this history executes: " + detail[:900], "history": hist, "phase": "miri",
+                                              "scenario": jsc, "config": "miri", "profile": "miri", "features": list(leg["features"]), "engine": "hx-miri", "extra": {"miri": True}})
+                else:
+                    for v in detail:
+                        rec = dict(v, scenario=jsc, config="miri", profile="chk", features=list(leg["features"]))
+                        if counts is None or any(t in counts for t in v["prop"].split(",")):
+                            agg["violations"].append(rec)
+            agg["executions"] += len(jobs)
+            agg["legs"].append({"scenario": sc["name"] + " under Miri", "config": "miri[%s]" % ",".join(leg["features"]), "histories_replayed_under_miri": len(jobs), "all_histories_up_to_depth": leg["kw"].get("miri_depth", 2), "fixed_deeper_histories": len(jobs) - sum(1 for j in jobs if j[0].get("depth") != 12),
+                                "unique_states": 0, "transitions": 0, "capped": False, "wall_s": round(wall, 1), "reported": bad})
+            log("%s Miri leg: %d histories, %d reported, %.0fs" % (pid, len(jobs), bad, wall))
+            continue
         if leg["fam"] == "CYCLE":
             # hook-free: 2^32-2 real create/destroy cycles on one position and on two alternating positions
             outp = os.path.join(WORK, "out", "cycle.%d.json" % os.getpid())
@@ -223,6 +247,10 @@ def cmd_check(pid, tier):
 
 def cmd_replay(path):
     rp = json.load(open(path))
+    if rp.get("engine") == "hx-miri":
+        verdict, detail = hxrun.miri_replay(rp["scenario"], rp["history"], tuple(rp.get("features") or ()))
+        print(verdict, detail if isinstance(detail, str) else json.dumps(detail, indent=1))
+        return 0 if verdict == "ok" else 1
     if rp.get("engine") == "hx-cycle":
         binary = build("hx", rp["profile"], tuple(rp.get("features") or ()))
         outp = os.path.join(WORK, "out", "cycle-replay.json")
